@@ -20,8 +20,8 @@ if echo "$o" | grep -q "^VIOLATION"; then a386=$(echo "$o" | grep -E "^  (violat
 # 3. self-test
 ls seeded/$PROP-*/patch.diff selftest/revert/*${PROP}*.diff 2>/dev/null > "$TMP/variants"
 ls selftest/benign/*.diff 2>/dev/null > "$TMP/benign"
-cat "$TMP/variants" | xargs -r -P 4 -I{} ./tools/run_variant.sh {} "$PROP" > "$TMP/v.out" 2>/dev/null
-cat "$TMP/benign"   | xargs -r -P 4 -I{} ./tools/run_variant.sh {} "$PROP" > "$TMP/b.out" 2>/dev/null
+cat "$TMP/variants" | xargs -r -P 8 -I{} ./tools/run_variant.sh {} "$PROP" > "$TMP/v.out" 2>/dev/null
+cat "$TMP/benign"   | xargs -r -P 8 -I{} ./tools/run_variant.sh {} "$PROP" > "$TMP/b.out" 2>/dev/null
 python3 - "$TMP" "$PROP" "$a386" > "$ST" <<'PY'
 import json, sys, os
 tmp, prop, a386 = sys.argv[1], sys.argv[2], sys.argv[3]
